@@ -112,6 +112,7 @@ def model_case(case):
 
 
 def compare(case, mo, io):
+    io = [x for x in io if not (isinstance(x, list) and x and x[0] == "calls")]
     if is_err(mo) or is_err(io):
         return None if mo[:2] == io[:2] else f"outcome differs: model {sx.show(mo[:2])} impl {sx.show(io[:2])}"
     return None if mo == io else f"model {sx.show(mo)[:300]} impl {sx.show(io)[:300]}"
@@ -128,7 +129,12 @@ def oracle(case, io, mo):
         heap = {int(i): (None if v == "none" else int(v)) for i, v in case[4]}
         su = case[2] in (1, "1") and k == "setp"
         g = case[3]
-        got = {int(i): (None if v == "none" else int(v)) for i, v in io[1:]}
+        calls = [x for x in io[1:] if x and x[0] == "calls"]
+        got = {int(i): (None if v == "none" else int(v)) for i, v in io[1:] if i != "calls"}
+        if calls and k == "setp":
+            want = sum(1 for i in ids if heap.get(i) is not None or su)
+            if int(calls[0][1]) != want:
+                return f"the function was called {calls[0][1]} times, there are {want} distinct leaves to edit (exactly once each)"
         for i in ids:
             old = heap.get(i)
             if old is None and not su:
